@@ -474,6 +474,23 @@ func dispatch(op string, a []val) string {
 		p := mkPoint(babyjub.B8.X, babyjub.B8.Y) // a receiver that already holds a point
 		r := p.Mul(a[0].i, mkPoint(a[1].i, a[2].i))
 		return pt(p) + " " + pt(r)
+	case "mulzerorecv": // a zero-value Point as receiver (nil coordinates before the call): receiver and returned value
+		p := new(babyjub.Point)
+		r := p.Mul(a[0].i, mkPoint(a[1].i, a[2].i))
+		return pt(p) + " " + pt(r)
+	case "decompresszero":
+		p := new(babyjub.Point)
+		r, err := p.Decompress(arr32(a[0].b))
+		if err != nil {
+			if p.X == nil && p.Y == nil {
+				return "ERR untouched"
+			}
+			return "ERR touched"
+		}
+		if p.X == nil || p.Y == nil {
+			return "NILCOORD " + pt(r)
+		}
+		return pt(p) + " " + pt(r)
 	case "mulalias": // q.Mul(s, q)
 		q := mkPoint(a[1].i, a[2].i)
 		r := q.Mul(a[0].i, q)
